@@ -296,7 +296,7 @@ func (g *G) nodeinfo(w *bool, first bool) *structs.NodeInfo {
 	for j := 0; j < nc; j++ {
 		var iw *bool
 		if g.mode == "inner" && first {
-			iw = g.inner(j)
+			iw = g.inner(g.n + j)
 		} else if g.mode == "exh" {
 			b := g.coin(0.5)
 			iw = &b
